@@ -4,6 +4,16 @@
 #include "K_pdm_get_index.c"
 #include "K_pds_get_offset.c"
 #include "K_fss_reorder.c"
+#include "K_pdm_set_viewgram.c"
+#include "K_pdm_get_viewgram.c"
+#include "K_pdm_set_sinogram.c"
+#include "K_pdm_get_sinogram.c"
+#include "K_pds_set_bin_value.c"
+#include "K_pds_set_viewgram.c"
+#include "K_pds_set_sinogram.c"
+int K_pds_set_segment_by_view(const struct PD* self, const int v_segment_num, const int v_timing_pos_num);
+#include "K_pds_set_segment_by_sinogram.c"
+#include "K_pds_set_segment_by_view.c"
 
 static void ghosts(void)
 {
@@ -20,6 +30,27 @@ void h_K_find_int(void)
 void h_K_pdm_get_index(void) { struct PD* s; struct Bin* b; ghosts(); K_pdm_get_index(s, b); }
 void h_K_pds_get_offset(void) { struct PD* s; struct Bin* b; ghosts(); K_pds_get_offset(s, b); }
 
+static void ghosts_path(void)
+{
+  ghosts();
+  g_bin.segment_num = nondet_int(); g_bin.view_num = nondet_int(); g_bin.axial_pos_num = nondet_int(); g_bin.tangential_pos_num = nondet_int(); g_bin.timing_pos_num = nondet_int();
+  g_idx = nondet_long(); g_buf_writes = 0; g_reads = 0; g_read_idx = nondet_long();
+}
+void h_K_pdm_set_viewgram(void) { struct PD* s; ghosts_path(); K_pdm_set_viewgram(s, nondet_int(), nondet_int(), nondet_int()); }
+void h_K_pdm_get_viewgram(void) { struct PD* s; ghosts_path(); K_pdm_get_viewgram(s, nondet_int(), nondet_int(), nondet_int()); }
+void h_K_pdm_set_sinogram(void) { struct PD* s; ghosts_path(); K_pdm_set_sinogram(s, nondet_int(), nondet_int(), nondet_int()); }
+void h_K_pdm_get_sinogram(void) { struct PD* s; ghosts_path(); K_pdm_get_sinogram(s, nondet_int(), nondet_int(), nondet_int()); }
+static void ghosts_stream(void)
+{
+  ghosts_path();
+  g_foff = nondet_long(); g_seek = nondet_long(); g_dirty = 0; g_fwrites = 0; g_stream_null = nondet_int(); g_stream_bad = nondet_int(); g_nonfloat = nondet_int();
+  g_scale_factor = nondet_float(); g_blk_start = nondet_long(); g_blk_elems = nondet_long();
+}
+void h_K_pds_set_bin_value(void) { struct PD* s; struct Bin* b; ghosts_stream(); K_pds_set_bin_value(s, b); }
+void h_K_pds_set_viewgram(void) { struct PD* s; ghosts_stream(); K_pds_set_viewgram(s, nondet_int(), nondet_int(), nondet_int()); }
+void h_K_pds_set_sinogram(void) { struct PD* s; ghosts_stream(); K_pds_set_sinogram(s, nondet_int(), nondet_int(), nondet_int()); }
+void h_K_pds_set_segment_by_sinogram(void) { struct PD* s; ghosts_stream(); K_pds_set_segment_by_sinogram(s, nondet_int(), nondet_int()); }
+void h_K_pds_set_segment_by_view(void) { struct PD* s; ghosts_stream(); K_pds_set_segment_by_view(s, nondet_int(), nondet_int()); }
 void h_K_fss_reorder(void)
 {
   g_r = nondet_int(); g_zero = nondet_int(); g_rloc = nondet_int(); g_fss_min_seg = nondet_int(); g_fss_max_seg = nondet_int();
